@@ -149,6 +149,46 @@ func Equals(left, right Object) bool {
 	return Cmp(left, right) == 0
 }
 
+// Identical is stricter than Equals: the same types all the way down ([1] isn't [1.0]), the same float bits
+// (0.0 isn't -0.0) and for functions the same environment (two closures of one function literal differ).
+// Used to decide whether setting a constant again leaves it unchanged.
+func Identical(left, right Object) bool {
+	left, right = Value(left), Value(right)
+	if left.Type() != right.Type() {
+		return false
+	}
+	switch l := left.(type) {
+	case Float:
+		return math.Float64bits(l.Value) == math.Float64bits(right.(Float).Value)
+	case Function:
+		r := right.(Function)
+		return l.CacheKey == r.CacheKey && l.Env == r.Env
+	case Array:
+		le, re := l.Elements(), right.(Array).Elements()
+		if len(le) != len(re) {
+			return false
+		}
+		for i := range le {
+			if !Identical(le[i], re[i]) {
+				return false
+			}
+		}
+		return true
+	case Map:
+		le, re := l.mapElements(), right.(Map).mapElements()
+		if len(le) != len(re) {
+			return false
+		}
+		for i := range le {
+			if !Identical(le[i].Key, re[i].Key) || !Identical(le[i].Value, re[i].Value) {
+				return false
+			}
+		}
+		return true
+	}
+	return Equals(left, right)
+}
+
 func CopyRegister(o Object) Object {
 	if r, ok := o.(*Register); ok {
 		return r.ObjValue()
